@@ -1,5 +1,6 @@
-\* the pinned code: DataChannel::SetDisableInterrupt writes without the channel mutex (defect D7), the
-\* vector registers are plain stores.  TLC must find the lockset counterexample.
+\* the code as first pinned (before fix 2b7c59d): DataChannel::SetDisableInterrupt writes without the channel
+\* mutex (defect D7).  TLC must find the lockset counterexample -- keeps the model honest about what the
+\* repair bought.
 CONSTANTS
   Chans = {0}
   SemFull = 3
@@ -13,6 +14,8 @@ CONSTANTS
   NDis = 1
   NVec = 0
   NCbSend = 0
+  HostKinds = {"Empty", "PollRecv", "SemSet", "SemGet", "SemClr", "SemMask"}
+  NDspMask = 0
   TrackLockset = TRUE
 SPECIFICATION Spec
 INVARIANTS ValuesOK LocksetOK
